@@ -91,6 +91,12 @@ def records(repo):
     fi = repo.func(PRG)
     functions = [fi.describe()]
     comps = [n for n in ast.walk(fi.node) if isinstance(n, (ast.ListComp, ast.DictComp, ast.GeneratorExp))]
+    # the local that holds the selected registry entries, by role: the target of the assignment whose value is the filtered selection
+    SEL = "library_commands"
+    for a in ast.walk(fi.node):
+        if isinstance(a, ast.Assign) and len(a.targets) == 1 and isinstance(a.targets[0], ast.Name) and isinstance(a.value, ast.ListComp) \
+                and a.value.generators[0].ifs and "get_commands" in ast.unparse(a.value.generators[0].iter):
+            SEL = a.targets[0].id
     # (F) the selection filter: any(<pred(info, lib)> for lib in libraries)
     found = False
     for comp in comps:
@@ -163,8 +169,8 @@ def records(repo):
                 term = _merge_truth(outs)
                 prove(PRG + "/duplicate <=> a name selected more than once", fi.key, [ct >= 1], term == (ct >= 2))
                 src = ast.unparse(g.generators[0].iter)
-                add(PRG + "/duplicates are searched among the selected entries", "unsat" if src == "library_commands" else "unknown", fi.key,
-                    goal=src, backend="syntactic", reason=None if src == "library_commands" else "counts %s" % src)
+                add(PRG + "/duplicates are searched among the selected entries", "unsat" if src == SEL else "unknown", fi.key,
+                    goal=src, backend="syntactic", reason=None if src == SEL else "counts %s" % src)
             except Unsupported as e:
                 add(PRG + "/duplicates are counted per command name", "unknown", fi.key, reason="unsupported: %s" % e)
             break
@@ -192,7 +198,7 @@ def records(repo):
                     goals.append(z3.Implies(z3.And(*st_.pc) if st_.pc else z3.BoolVal(True), v.t == cmdv))
                 prove(PRG + "/command_library maps each selected command's name to its class", fi.key, [Val.is_O(cmdv)], z3.And(*goals))
                 src = ast.unparse(comp.generators[0].iter)
-                okk = src == "library_commands" and not comp.generators[0].ifs
+                okk = src == SEL and not comp.generators[0].ifs
                 add(PRG + "/command_library is built from exactly the selected entries", "unsat" if okk else "unknown", fi.key, goal=src,
                     backend="syntactic", reason=None if okk else "table built from %s" % src)
             except Unsupported as ex:
@@ -214,7 +220,16 @@ def records(repo):
                 i = smt.fresh("info", z3.IntSort())
                 nc = smt.fresh("new_class", z3.IntSort())
                 cn = smt.fresh("command_name", Val)
-                env = {var: dyn(Val.O(i)), "new_class": dyn(Val.O(nc)), "command_name": dyn(cn), "name": dyn(smt.fresh("clsname", Val))}
+                # locals by role: the class just created (result of super().__new__) and its command name (attrs.get("name", name))
+                NC, CN = "new_class", "command_name"
+                for a in ast.walk(mi.node):
+                    if isinstance(a, ast.Assign) and len(a.targets) == 1 and isinstance(a.targets[0], ast.Name) and isinstance(a.value, ast.Call):
+                        txt = ast.unparse(a.value)
+                        if ".__new__(" in txt and txt.startswith("super("):
+                            NC = a.targets[0].id
+                        elif txt.startswith("attrs.get('name'") or txt.startswith('attrs.get("name"'):
+                            CN = a.targets[0].id
+                env = {var: dyn(Val.O(i)), NC: dyn(Val.O(nc)), CN: dyn(cn), "name": dyn(smt.fresh("clsname", Val))}
                 try:
                     cmd = FLD("command")(i)
                     # module names and command names are strings (class statement / `name` attribute of a Command subclass)
@@ -230,7 +245,7 @@ def records(repo):
                     else:
                         prove(META + "/already registered <=> same (module, command name)", mi.key, strs, term == spec)
                     body = ast.unparse(n.body[0]) if n.body else ""
-                    okb = "_commands.add(CommandInfo(new_class.__module__, new_class))" in body
+                    okb = ("_commands.add(CommandInfo(%s.__module__, %s))" % (NC, NC)) in body
                     add(META + "/first registration wins: the entry is only ever added", "unsat" if okb else "unknown", mi.key, goal=body[:120],
                         backend="syntactic", reason=None if okb else "registration statement changed")
                     src = ast.unparse(g.generators[0].iter)
